@@ -69,8 +69,8 @@ func init() {
 				n = 30000
 			}
 			return fw.Meta{N: n, Level: "exploration", Chunk: 50, CaseTimeoutS: 120, MinNT: 200,
-				Rule:        "one case = one file written by the real writer (0..25 records: nil, empty, random, compressible, marker-laden, a few with stored length >= 16 KiB / >= 2 MiB varint groups) under each of the 4 compression types; differential oracle: Kaitai-generated reader vs native sequential reader vs the harness's independent layout parser: parse succeeds, same record count, same nil flags, payload == stored bytes, decompress(stored) == native record, header compression code maps to the enum constant of the same algorithm. Non-trivial: compressed file with >=1 nil and >=1 empty record, or any file with >=3 records; distinct by content hash",
-				MinObs:      map[string]int64{"records_compared": 5000, "nil_records_in_compressed_files": 100, "empty_records_in_compressed_files": 100, "files_gzip": 50, "files_snappy": 50, "files_lzw": 50, "files_none": 50, "three_group_lengths": 5},
+				Rule:        "one case = one file written by the real writer (0..25 records: nil, empty, random, compressible, marker-laden, a few with stored length >= 16 KiB / >= 2 MiB varint groups) under each of the 4 compression types, one file in four by a program that rolls records back (seek to a written record's offset after 0..2 further, mostly nil, records and rewrite it, often as the last action before Close); differential oracle: Kaitai-generated reader vs native sequential reader vs the harness's independent layout parser: parse succeeds, same record count, same nil flags, payload == stored bytes, decompress(stored) == native record, header compression code maps to the enum constant of the same algorithm. Non-trivial: compressed file with >=1 nil and >=1 empty record, or any file with >=3 records; distinct by content hash",
+				MinObs:      map[string]int64{"records_compared": 5000, "nil_records_in_compressed_files": 100, "empty_records_in_compressed_files": 100, "files_gzip": 50, "files_snappy": 50, "files_lzw": 50, "files_none": 50, "three_group_lengths": 5, "rollbacks": 100},
 				Assumptions: []string{"the Go reader generated from the schema (kaitai/gokaitai) stands for the schema; kaitai-struct-compiler is not available offline"},
 			}
 		},
@@ -106,18 +106,77 @@ func runC20(c *fw.Case) {
 	}
 	c.HashAdd(comp)
 	path := filepath.Join(c.Dir, "f.rio")
-	if _, err := writeRio(path, comp, gen.Pick(r, 64, 4096, 0), recs); err != nil {
-		c.Violate("harness/write", "%v", err)
-		return
+	// one file in four is written by a program that ROLLS BACK: after some records (often the last one) 0..2 further
+	// records (mostly nil) are written, then the writer seeks back to the record's offset and writes a replacement
+	// (what the table writer does after a failed index append); the file must hold exactly the surviving records
+	rollback := r.Intn(4) == 0
+	if !rollback {
+		if _, err := writeRio(path, comp, gen.Pick(r, 64, 4096, 0), recs); err != nil {
+			c.Violate("harness/write", "%v", err)
+			return
+		}
+	} else {
+		c.Obs("files_written_with_rollbacks", 1)
+		opts := []recordio.FileWriterOption{recordio.Path(path), recordio.CompressionType(comp)}
+		if wb := gen.Pick(r, 64, 4096, 0); wb != 0 {
+			opts = append(opts, recordio.BufferSizeBytes(wb))
+		}
+		w, err := recordio.NewFileWriter(opts...)
+		if err == nil {
+			err = w.Open()
+		}
+		if err != nil {
+			c.Violate("harness/write", "%v", err)
+			return
+		}
+		for i := range recs {
+			o, err := w.Write(recs[i])
+			if err == nil && (r.Intn(5) == 0 || (i == len(recs)-1 && r.Intn(2) == 0)) {
+				for j := r.Intn(3); j > 0 && err == nil; j-- {
+					if r.Intn(4) == 0 {
+						_, err = w.Write(gen.Payload(r, 30))
+					} else {
+						_, err = w.Write(nil)
+					}
+				}
+				if err == nil {
+					err = w.Seek(o)
+				}
+				if err == nil {
+					switch r.Intn(4) {
+					case 0:
+						recs[i] = nil
+					case 1:
+						recs[i] = []byte{}
+					case 2:
+						recs[i] = gen.Bytes(r, r.Intn(25))
+					}
+					c.HashAdd("rollback", i, recs[i], recs[i] == nil)
+					_, err = w.Write(recs[i])
+					c.Obs("rollbacks", 1)
+				}
+			}
+			if err != nil {
+				c.Violate("harness/write", "rollback program: %v", err)
+				return
+			}
+		}
+		if err := w.Close(); err != nil {
+			c.Violate("harness/write", "rollback program: Close: %v", err)
+			return
+		}
 	}
 	img, err := os.ReadFile(path)
 	if err != nil {
 		c.Violate("harness/read", "%v", err)
 		return
 	}
-	pf, err := rio.Parse(img)
-	if err != nil || len(pf.Recs) != len(recs) || pf.Tail != len(img) {
-		c.Violate("harness/parse", "independent parser: %v recs=%d want %d", err, len(pf.Recs), len(recs))
+	pf, layoutErr := rio.Parse(img)
+	if layoutErr == nil && (len(pf.Recs) != len(recs) || pf.Tail != len(img)) {
+		layoutErr = fmt.Errorf("%d records and %d trailing bytes, want %d records and none", len(pf.Recs), len(img)-pf.Tail, len(recs))
+	}
+	if layoutErr != nil && !rollback {
+		c.Violate("harness/parse", "independent parser: %v", layoutErr)
 		return
 	}
 	cname := []string{"none", "gzip", "snappy", "lzw"}[comp]
@@ -149,7 +208,11 @@ func runC20(c *fw.Case) {
 	}
 	_ = rd.Close()
 	if len(native) != len(recs) {
-		c.Violate("harness/native-count", "native reader sees %d records, written %d", len(native), len(recs))
+		sig := "harness/native-count"
+		if rollback {
+			sig = "recordio/rolled-back-file/native-record-count"
+		}
+		c.Violate(sig, "native reader sees %d records, written %d (layout: %v)", len(native), len(recs), layoutErr)
 		return
 	}
 
@@ -178,8 +241,15 @@ func runC20(c *fw.Case) {
 	if comp != 0 && nils > 0 {
 		why = "/has-nil-record"
 	}
+	if rollback {
+		why += "/after-rollback"
+	}
 	if perr != nil {
-		c.Violate("kaitai/parse-error"+feat+why, "%s: Kaitai reader failed: %v (records parsed before the failure: %d)", cfg, perr, len(k.Record))
+		c.Violate("kaitai/parse-error"+feat+why, "%s: Kaitai reader failed: %v (records parsed before the failure: %d; native reader: %d records; layout: %v)", cfg, perr, len(k.Record), len(native), layoutErr)
+		return
+	}
+	if layoutErr != nil {
+		c.Violate("recordio/rolled-back-file-layout"+feat, "%s: the file written with rollbacks does not consist of exactly the surviving records: %v", cfg, layoutErr)
 		return
 	}
 	if k.FileHeader.Version != 4 {
